@@ -267,7 +267,7 @@ func (e *c05Executor) ExecuteSQLs(ctx *util.RequestContext, sqls map[string]map[
 	}
 	return rs, nil
 }
-func (e *c05Executor) SetLastInsertID(uint64) {}
+func (e *c05Executor) SetLastInsertID(uint64)  {}
 func (e *c05Executor) GetLastInsertID() uint64 { return 0 }
 func (e *c05Executor) HandleSet(*util.RequestContext, string, *ast.SetStmt) (*mysql.Result, error) {
 	return nil, nil
@@ -501,6 +501,7 @@ func init() {
 		Trivial: func(in core.Sexp, out string) bool {
 			return out == "err" || strings.HasPrefix(out, "reject") || out == "panic"
 		},
+		ShrinkKeep: []string{"meta", "lit"},
 		Assumptions: []string{
 			"each backend reports as affected exactly the rows its WHERE selects (every selected row is changed); MySQL's three-valued evaluation of the generated predicate forms is as in the harness' AST evaluator and in the Lean oracle (cross-checked against each other on every case)",
 			"TZ=UTC; rows are stored where FindTableIndex places their key (C03/C09)",
